@@ -392,7 +392,7 @@ Qed.
 Lemma step_dead_data c code d es dt :
   holds c 0 (PhDead code d) -> holds (feed c (data_frame sid es dt)) 0 (PhDead code d).
 Proof.
-  intro H. pose proof H as D. cbn [SrvMsgPhase.holds] in D. destruct D as [Db Dst Dr Dd Dop Dout Drst]. destruct Db as [Bc Bsl Brl Bwl Bq Bec Bl Bh Bg Be Bi Bcw Bcr Bcl Bn].
+  intro H. pose proof H as D. cbn [SrvMsgPhase.holds] in D. destruct D as [Db Dst Dr Dd Dop Dout]. destruct Db as [Bc Bsl Brl Bwl Bq Bec Bl Bh Bg Be Bi Bcw Bcr Bcl Bn].
   rewrite (feed_data _ dec_field enc_field enc_set_max cfg c sid es dt odd Brl Bsl Bq Bec).
   exact (dead_data_step _ dec_field enc_field enc_set_max cfg c0 sid R0 c 0 code d es dt H).
 Qed.
@@ -405,14 +405,14 @@ Lemma step_dead_headers c code d (es eh : bool) frag fs d' n' carry :
   frag_dec eh d 0 frag fs d' n' carry ->
   dead_result code eh d' n' carry (feed c (headers_frame sid es eh frag)) (if eh then 0 else sid).
 Proof.
-  cbn [SrvMsgPhase.holds]. intros D Hdec. pose proof D as D'. destruct D' as [Db Dst Dr Dd Dop Dout Drst]. destruct Db as [Bc Bsl Brl Bwl Bq Bec Bl Bh Bg Be Bi Bcw Bcr Bcl Bn].
+  cbn [SrvMsgPhase.holds]. intros D Hdec. pose proof D as D'. destruct D' as [Db Dst Dr Dd Dop Dout]. destruct Db as [Bc Bsl Brl Bwl Bq Bec Bl Bh Bg Be Bi Bcw Bcr Bcl Bn].
   pose proof (feed_blk _ dec_field enc_field enc_set_max cfg c sid false es eh frag odd Brl Bsl Bq Bec) as F.
   cbn [blk_frame] in F. unfold dead_result. rewrite F. set (cx := upd_expectCont c (if eh then 0 else sid)).
   assert (DX : dead cx (if eh then 0 else sid) code d) by (apply (dead_ec c 0); exact D).
   rewrite (sl_frame_dead_headers _ dec_field enc_field enc_set_max cfg cx sid es eh frag NZ).
   - exact (dead_frag _ dec_field cfg c0 sid cx _ code d false es eh frag fs d' n' carry DX ltac:(discriminate) Hdec).
   - unfold cx. sc_cbn. rewrite Dst. apply (rd_table _ _ _ _ R).
-  - destruct DX as [_ _ X _ _ _ _]. exact X.
+  - destruct DX as [_ _ X _ _ _]. exact X.
 Qed.
 
 Lemma step_dead_cont c code carry0 nf d (eh : bool) frag fs d' n' carry :
@@ -420,7 +420,7 @@ Lemma step_dead_cont c code carry0 nf d (eh : bool) frag fs d' n' carry :
   frag_dec eh d nf (carry0 ++ frag) fs d' n' carry ->
   dead_result code eh d' n' carry (feed c (cont_frame sid eh frag)) (if eh then 0 else sid).
 Proof.
-  cbn [SrvMsgPhase.holds]. intros (D & DI & DP & DF) Hdec. pose proof D as D'. destruct D' as [Db Dst Dr Dd Dop Dout Drst]. destruct Db as [Bc Bsl Brl Bwl Bq Bec Bl Bh Bg Be Bi Bcw Bcr Bcl Bn].
+  cbn [SrvMsgPhase.holds]. intros (D & DI & DP & DF) Hdec. pose proof D as D'. destruct D' as [Db Dst Dr Dd Dop Dout]. destruct Db as [Bc Bsl Brl Bwl Bq Bec Bl Bh Bg Be Bi Bcw Bcr Bcl Bn].
   pose proof (feed_blk _ dec_field enc_field enc_set_max cfg c sid true false eh frag odd Brl Bsl Bq Bec) as F.
   cbn [blk_frame] in F. unfold dead_result. rewrite F. set (cx := upd_expectCont c (if eh then 0 else sid)).
   assert (DX : dead cx (if eh then 0 else sid) code d) by (apply (dead_ec c sid); exact D).
@@ -716,11 +716,14 @@ Proof. apply existsb_app. Qed.
 Lemma forallb_negb_existsb {A} (f : A -> bool) l : forallb (fun x => negb (f x)) l = negb (existsb f l).
 Proof. induction l as [|x t IH]; [reflexivity|]. cbn [forallb existsb]. rewrite IH, negb_orb. reflexivity. Qed.
 
+(* the limits whose violation costs the connection (GOAWAY): the header list and the carried-over partial fields *)
+Definition hlimit (fs tr : list field) (k1 k2 : list bytes) : bool :=
+  negb (list_over cfg (fsize fs + fsize tr)) && negb (carries_over k1) && negb (carries_over k2).
+
 Lemma within_limits_eq fs tr (k1 k2 : list bytes) n :
-  within_limits cfg fs tr (k1 ++ k2) n =
-  negb (list_over cfg (fsize fs + fsize tr)) && negb (carries_over k1) && negb (carries_over k2) && negb (body_over cfg (Z.of_N n)).
+  within_limits cfg fs tr (k1 ++ k2) n = hlimit fs tr k1 k2 && negb (body_over cfg (Z.of_N n)).
 Proof.
-  unfold within_limits. rewrite fsize_app.
+  unfold within_limits, hlimit. rewrite fsize_app.
   change (forallb (fun x => negb (list_over cfg (Z.of_N (len x)))) (k1 ++ k2)) with (forallb (fun x => negb (carry_over x)) (k1 ++ k2)).
   rewrite forallb_negb_existsb. fold (carries_over (k1 ++ k2)). rewrite carries_over_app, negb_orb, !andb_assoc. reflexivity.
 Qed.
@@ -731,24 +734,29 @@ Definition final_req (fs : list field) (chunks : list bytes) (tr : list field) :
 
 Definition ok_code (code : N) : Prop := code = c_ProtocolError \/ code = c_EnhanceYourCalm.
 
-Definition outcome (lim acc : bool) (fs : list field) (chunks : list bytes) (tr : list field) (d2 : hstate) (c' : sconn) : Prop :=
+Definition outcome (lim hlim acc : bool) (fs : list field) (chunks : list bytes) (tr : list field) (d2 : hstate) (c' : sconn) : Prop :=
   if lim && acc
   then exists st size nf, holds c' 0 (PhDisp st size nf (final_req fs chunks tr) (bytes_len chunks) d2)
-  else rej c' d2 /\ (lim = true -> exists code, ok_code code /\ holds c' 0 (PhDead code d2)).
+  else rej c' d2 /\ (hlim = true -> exists code, ok_code code /\ holds c' 0 (PhDead code d2)).
 
-Lemma outcome_dead lim acc fs chunks tr d2 c' code :
-  holds c' 0 (PhDead code d2) -> ok_code code -> lim && acc = false -> outcome lim acc fs chunks tr d2 c'.
-Proof. intros H K F. unfold outcome. rewrite F. split; [right; exists code; exact H | intros _; exists code; auto]. Qed.
+Lemma outcome_cond lim hlim acc fs chunks tr d2 c' code :
+  rej c' d2 -> (hlim = true -> holds c' 0 (PhDead code d2)) -> ok_code code -> lim && acc = false ->
+  outcome lim hlim acc fs chunks tr d2 c'.
+Proof. intros RJ H K F. unfold outcome. rewrite F. split; [exact RJ | intro L; exists code; auto]. Qed.
 
-Lemma outcome_rej acc fs chunks tr d2 c' : rej c' d2 -> outcome false acc fs chunks tr d2 c'.
-Proof. intro H. unfold outcome. cbn [andb]. split; [exact H | discriminate]. Qed.
+Lemma outcome_dead lim hlim acc fs chunks tr d2 c' code :
+  holds c' 0 (PhDead code d2) -> ok_code code -> lim && acc = false -> outcome lim hlim acc fs chunks tr d2 c'.
+Proof. intros H K F. apply (outcome_cond _ _ _ _ _ _ _ _ code); auto. right. exists code. exact H. Qed.
+
+Lemma outcome_rej lim acc fs chunks tr d2 c' : rej c' d2 -> lim = false -> outcome lim false acc fs chunks tr d2 c'.
+Proof. intros H ->. unfold outcome. cbn [andb]. split; [exact H | discriminate]. Qed.
 
 Theorem request_run hfrags chunks tfrags fs tr d1 d2 carries1 carries2 :
   block_dec (sc_dec c0) 0 [] hfrags fs d1 carries1 ->
   trailers_dec d1 tfrags tr d2 carries2 ->
   let n := len (concat chunks) in
-  outcome (within_limits cfg fs tr (carries1 ++ carries2) n) (vacc2 cfg v0 fs tr n) fs chunks tr d2
-          (feeds c0 (req_frames sid hfrags chunks tfrags)).
+  outcome (within_limits cfg fs tr (carries1 ++ carries2) n) (hlimit fs tr carries1 carries2) (vacc2 cfg v0 fs tr n)
+          fs chunks tr d2 (feeds c0 (req_frames sid hfrags chunks tfrags)).
 Proof.
   intros B T n. rewrite req_frames_eq, feeds_app.
   set (esH := match tfrags with Some _ => false | None => is_nil chunks end).
@@ -756,27 +764,34 @@ Proof.
   pose proof (block_run c0 (if esH then SHalfClosed else SOpen) v0 0 empty_req 0 esH (sc_dec c0) hfrags fs d1 carries1
                         (fun eh frag fs1 d1 n1 carry H => step_first esH eh frag fs1 d1 n1 carry H) B) as BF.
   fold cH in BF. unfold blk_final in BF. rewrite Z.add_0_l in BF.
-  rewrite within_limits_eq. change (Z.of_N n) with (bytes_len chunks). set (lim := (_ && _ && _ && _)%bool).
+  rewrite within_limits_eq. change (Z.of_N n) with (bytes_len chunks).
+  set (hlim := hlimit fs tr carries1 carries2). set (lim := (hlim && _)%bool).
+  assert (HLIM : hlim = true -> list_over cfg (fsize fs + fsize tr) = false /\ carries_over carries1 = false /\
+                                carries_over carries2 = false).
+  { unfold hlim, hlimit. intro H. repeat (apply andb_true_iff in H; destruct H as [H ?]).
+    repeat match goal with X : negb _ = true |- _ => apply negb_true_iff in X end. auto. }
+  assert (LIMH : lim = true -> hlim = true) by (unfold lim; intro H; apply andb_true_iff in H; apply H).
   assert (LIM : lim = true -> list_over cfg (fsize fs + fsize tr) = false /\ carries_over carries1 = false /\
                               carries_over carries2 = false /\ body_over cfg (bytes_len chunks) = false).
-  { unfold lim. intro H. repeat (apply andb_true_iff in H; destruct H as [H ?]).
-    repeat match goal with X : negb _ = true |- _ => apply negb_true_iff in X end. auto. }
+  { intro H. destruct (HLIM (LIMH H)) as (X1 & X2 & X3). repeat split; auto.
+    unfold lim in H. apply andb_true_iff in H. destruct H as [_ H]. apply negb_true_iff in H. exact H. }
   assert (LIMI : list_over cfg (fsize fs + fsize tr) = false -> carries_over carries1 = false ->
                  carries_over carries2 = false -> body_over cfg (bytes_len chunks) = false -> lim = true).
-  { unfold lim. intros -> -> -> ->. reflexivity. }
+  { unfold lim, hlim, hlimit. intros -> -> -> ->. reflexivity. }
   pose proof (fsize_nonneg tr) as Ptr.
   (* the stream is refused in the header block *)
   assert (DEAD1 : forall code, holds cH 0 (PhDead code d1) -> ok_code code -> lim && vacc2 cfg v0 fs tr n = false ->
-                               outcome lim (vacc2 cfg v0 fs tr n) fs chunks tr d2 (feeds cH (rest_frames chunks tfrags))).
+                               outcome lim hlim (vacc2 cfg v0 fs tr n) fs chunks tr d2 (feeds cH (rest_frames chunks tfrags))).
   { intros code H K F. destruct (rest_from_dead cH code d1 chunks tfrags tr d2 carries2 H T) as [RJ PR].
-    unfold outcome. rewrite F. split; [exact RJ|]. intro L. exists code. split; [exact K|]. apply PR. apply (LIM L). }
+    apply (outcome_cond _ _ _ _ _ _ _ _ code RJ); [|exact K | exact F]. intro L. apply PR. apply (HLIM L). }
   destruct (list_over cfg (fsize fs) || carries_over carries1)%bool eqn:A1.
   { (* over a limit in the header block *)
-    assert (L : lim = false).
-    { destruct lim eqn:L; [|reflexivity]. destruct (LIM eq_refl) as (L1 & L2 & _).
+    assert (HL : hlim = false).
+    { destruct hlim eqn:L; [|reflexivity]. destruct (HLIM eq_refl) as (L1 & L2 & _).
       apply orb_true_iff in A1. destruct A1 as [A1|A1]; [|congruence].
       rewrite (list_over_mono' (fsize fs) (fsize fs + fsize tr) ltac:(lia) A1) in L1. discriminate. }
-    rewrite L. apply outcome_rej. exact (rest_from_rej cH d1 chunks tfrags tr d2 carries2 BF T). }
+    rewrite HL. apply outcome_rej; [|unfold lim; rewrite HL; reflexivity].
+    exact (rest_from_rej cH d1 chunks tfrags tr d2 carries2 BF T). }
   apply orb_false_iff in A1. destruct A1 as [A1a A1b].
   unfold vacc2. unfold vacc2 in DEAD1.
   destruct (vrun cfg v0 fs) as [code|st1] eqn:V1.
@@ -793,26 +808,28 @@ Proof.
     fold cD in DR. unfold data_final in DR. cbv zeta in DR. cbn [andb] in DR. rewrite Z.add_0_l in DR.
     destruct (body_over cfg (bytes_len chunks)) eqn:BO.
     { assert (L : lim = false) by (destruct lim eqn:L; [destruct (LIM eq_refl) as (_ & _ & _ & X); congruence | reflexivity]).
-      rewrite L. apply outcome_rej. apply (dead_block_run cD c_EnhanceYourCalm d1 true tf tr d2 carries2 DR T). }
+      destruct (dead_block_run cD c_EnhanceYourCalm d1 true tf tr d2 carries2 DR T) as [RJ PR].
+      apply (outcome_cond _ _ _ _ _ _ _ _ c_EnhanceYourCalm RJ); [|right; reflexivity | rewrite L; reflexivity].
+      intro HL. apply PR. apply (HLIM HL). }
     pose proof (block_run cD SHalfClosed (v_setr st1) (fsize fs) (rq_append_body (req_fold empty_req fs) (concat chunks))
                           (bytes_len chunks) true d1 tf tr d2 carries2
                           (fun eh frag fs1 dd n1 carry H => step_trailers cD st1 (fsize fs) nf1 _ _ d1 eh frag fs1 dd n1 carry DR H) T) as TF.
     unfold blk_final in TF.
     destruct (list_over cfg (fsize fs + fsize tr) || carries_over carries2)%bool eqn:A2.
-    { assert (L : lim = false).
-      { destruct lim eqn:L; [|reflexivity]. destruct (LIM eq_refl) as (L1 & _ & L3 & _).
+    { assert (HL : hlim = false).
+      { destruct hlim eqn:L; [|reflexivity]. destruct (HLIM eq_refl) as (L1 & _ & L3).
         apply orb_true_iff in A2. destruct A2; congruence. }
-      rewrite L. apply outcome_rej. exact TF. }
+      rewrite HL. apply outcome_rej; [exact TF | unfold lim; rewrite HL; reflexivity]. }
     apply orb_false_iff in A2. destruct A2 as [A2a A2b].
     assert (L : lim = true) by (apply LIMI; auto). rewrite L. unfold vacc.
     destruct (vrun cfg (v_setr st1) tr) as [code|st2] eqn:V2.
-    { apply (outcome_dead true false fs chunks tr d2 _ code TF (vrun_code _ _ _ V2) eq_refl). }
+    { apply (outcome_dead true hlim false fs chunks tr d2 _ code TF (vrun_code _ _ _ V2) eq_refl). }
     destruct TF as [nf2 TF]. unfold blk_end in TF.
     rewrite (vrun_regular_valid tr (v_setr st1) st2 eq_refl V2) in TF. change (v_valid (v_setr st1)) with (v_valid st1) in TF.
     rewrite VV in TF. unfold bytes_len in TF at 1. fold n in TF. rewrite cl_okZ_ok in TF.
     destruct (v_cl_ok st2 n).
     + unfold outcome. cbn [andb]. exists st2, (fsize fs + fsize tr)%Z, nf2. exact TF.
-    + apply (outcome_dead true false fs chunks tr d2 _ c_ProtocolError TF (or_introl eq_refl) eq_refl).
+    + apply (outcome_dead true hlim false fs chunks tr d2 _ c_ProtocolError TF (or_introl eq_refl) eq_refl).
   - (* no trailers *)
     destruct T as (-> & -> & ->). cbn [fsize fold_right] in LIMI. rewrite Z.add_0_r in LIMI.
     unfold vacc. cbn [vrun]. change (v_cl_ok (v_setr st1) n) with (v_cl_ok st1 n).
@@ -824,18 +841,18 @@ Proof.
       destruct (v_cl_ok st1 n).
       * unfold outcome. cbn [andb]. exists st1, (fsize fs), nf1. unfold final_req. cbn [concat req_fold fold_left].
         rewrite rq_append_body_nil. exact BF.
-      * apply (outcome_dead true false fs [] [] d1 _ c_ProtocolError BF (or_introl eq_refl) eq_refl).
+      * apply (outcome_dead true hlim false fs [] [] d1 _ c_ProtocolError BF (or_introl eq_refl) eq_refl).
     + change esH with false in BF. cbn iota in BF.
       pose proof (data_run (dt :: ch) true cH st1 (fsize fs) nf1 (req_fold empty_req fs) 0 d1 BF bo0) as DR.
       unfold data_final in DR. cbv zeta in DR. cbn [andb is_nil negb] in DR. rewrite Z.add_0_l in DR.
       destruct (body_over cfg (bytes_len (dt :: ch))) eqn:BO.
       { assert (L : lim = false) by (destruct lim eqn:L; [destruct (LIM eq_refl) as (_ & _ & _ & X); congruence | reflexivity]).
-        rewrite L. apply outcome_rej. right. exists c_EnhanceYourCalm. exact DR. }
+        apply (outcome_dead lim hlim _ fs (dt :: ch) [] d1 _ c_EnhanceYourCalm DR (or_intror eq_refl)). rewrite L. reflexivity. }
       assert (L : lim = true) by (apply LIMI; auto). rewrite L.
       unfold bytes_len in DR at 1. fold n in DR. rewrite cl_okZ_ok in DR.
       destruct (v_cl_ok st1 n).
       * unfold outcome. cbn [andb]. exists st1, (fsize fs), nf1. exact DR.
-      * apply (outcome_dead true false fs (dt :: ch) [] d1 _ c_ProtocolError DR (or_introl eq_refl) eq_refl).
+      * apply (outcome_dead true hlim false fs (dt :: ch) [] d1 _ c_ProtocolError DR (or_introl eq_refl) eq_refl).
 Qed.
 
 End Req.
